@@ -345,6 +345,7 @@ def run_property(prop, tier="quick", seed=0, only=None, extra=None):
     fn_hashes = {}
     solver_ms = {}
     by_name = {}
+    lemma_viol = []
     floor_names, path_counts, had_error = {}, {}, {}
     for r in results:
         fn_hashes.update(r["functions"])
@@ -388,6 +389,22 @@ def run_property(prop, tier="quick", seed=0, only=None, extra=None):
             bounded.append({k: v for k, v in bc.items() if k != "violations"})
             for v in bc.get("violations", []):
                 bviol.append((bc, v))
+    # syntactic / structural lemmas supplied by the property module (decided over the whole source tree)
+    lemma_recs = []
+    if hasattr(mod, "lemmas"):
+        for lm in mod.lemmas(tier, seed):
+            n_ob += 1
+            lemma_recs.append({k: v for k, v in lm.items()})
+            full = f"{prop}.lemma.{lm['name']}"
+            by_name.setdefault(full, []).append("discharged" if lm["ok"] else "failed")
+            if lm["ok"]:
+                n_dis += 1
+            elif lm.get("on_fail") == "undecided":
+                undecided.append(("lemma." + lm["name"], lm.get("detail", "")))
+            else:
+                rf = outdir / f"lemma.{lm['name']}.json"
+                rf.write_text(json.dumps({"property": prop, "obligation": full, "lemma": lm}, indent=1, default=str))
+                lemma_viol.append((full, rf))
     # classify violations: replay, known findings
     exit_code = 0
     deviations = []
@@ -414,7 +431,7 @@ def run_property(prop, tier="quick", seed=0, only=None, extra=None):
         rf = outdir / (full.replace(":", "_").replace("/", "_") + f".p{ob['path']}.json")
         rf.write_text(json.dumps({"property": prop, "obligation": full, "contract": c.name, "functions": c.functions,
                                   "solver": ob["solver"], "goal": ob.get("goal"), "path_condition_tail": ob.get("pc"),
-                                  "witness": ob.get("witness"), "expects": ob.get("expects"), "replay": rep, "notes": ob.get("notes")}, indent=1, default=str))
+                                  "witness": ob.get("witness"), "expects": ob.get("expects"), "replay": rep, "notes": ob.get("notes"), "meta": ob.get("meta")}, indent=1, default=str))
         if kf is not None:
             known_hits.append((kf, full))
             continue
@@ -454,6 +471,9 @@ def run_property(prop, tier="quick", seed=0, only=None, extra=None):
         reported.add(key)
         lines.append(f"VIOLATION property={prop} replay={rf} obligation={key}")
         exit_code = 1
+    for full, rf in lemma_viol:
+        lines.append(f"VIOLATION property={prop} replay={rf} obligation={full} no-failing-input-found")
+        exit_code = 1
     seen_k = set()
     for kf, full in known_hits:
         if kf["id"] in seen_k:
@@ -492,6 +512,7 @@ def run_property(prop, tier="quick", seed=0, only=None, extra=None):
             "solver_time_ms": solver_ms,
             "back_ends": sorted(solver_ms),
             "bounded": bounded,
+            "lemmas": lemma_recs,
             "undecided": [f"{a}: {b}" for a, b in undecided][:50],
             "known_findings_hit": sorted(seen_k),
             "pinned_deviations": deviations,
